@@ -536,6 +536,8 @@ def check(run: Run) -> None:
 
 
 VARIANTS = [
+    {"id": "c-revert-fix-F-C04-2-shortcut-at-any-position-any-cycle", "expect": "C13.c", "edits": [{"file": BASE, "find": "            if (data_.is_target_root())\n            {\n                const auto *link = data_.link_storage();\n                if (link != nullptr && link->tracking.last_modified_time == evaluation_time_ &&\n                    link->tracking.last_modified_time > data.last_modified_time())", "replace": "            if (is_target_position())\n            {\n                const auto *link = data_.link_storage();\n                if (link != nullptr && link->tracking.last_modified_time > data.last_modified_time())"}]},
+    {"id": "c-shortcut-not-keyed-on-cycle", "expect": "C13.c", "edits": [{"file": BASE, "find": "                if (link != nullptr && link->tracking.last_modified_time == evaluation_time_ &&\n                    link->tracking.last_modified_time > data.last_modified_time())\n                {\n                    return data.value();", "replace": "                if (link != nullptr && link->tracking.last_modified_time > data.last_modified_time())\n                {\n                    return data.value();"}]},
     {"id": "p-seed-C13-6-retarget-modified-only-new-or-ticked", "expect": "C13.p", "edits": [{"file": "src/hgraph/types/time_series/ts_input/target_link_ops.cpp", "find": "                return target.as_dict().slot_live(slot);\n            }\n            return target.as_dict().slot_modified(slot);", "replace": "                auto dict = target.as_dict();\n                return dict.slot_live(slot) && (dict.slot_modified(slot) || target_link_set_slot_added(context, memory, slot));\n            }\n            return target.as_dict().slot_modified(slot);"}]},
     {"id": "p-export-scan-skips-unmodified", "expect": "C13.p", "edits": [{"file": "src/hgraph/types/time_series/ts_input/target_link_ops.cpp", "find": "                if (dict.slot_live(slot)) { return slot; }\n            }\n            return TS_DATA_NO_CHILD_ID;", "replace": "                if (dict.slot_live(slot) && dict.slot_modified(slot)) { return slot; }\n            }\n            return TS_DATA_NO_CHILD_ID;"}]},
     {"id": "i-owned-row-uses-peered-unbind", "expect": "C13.i", "edits": [{"file": ALT, "find": "                    &unbind_from_ref_owned,", "replace": "                    &unbind_from_ref_peered,"}]},
